@@ -491,6 +491,26 @@ pub fn gen_once(g: &mut Generator, entropy: &Entropy) -> Outcome {
 pub fn giant_input(proto: u8, kind: usize) -> &'static (Vec<u8>, usize) {
     static GIANT: std::sync::OnceLock<Vec<(Vec<u8>, usize)>> = std::sync::OnceLock::new();
     let all = GIANT.get_or_init(|| {
+        // steering means generating; done in a throw-away process so that the process whose
+        // generations are judged performs no hidden generations of its own (process-wide state
+        // would otherwise be initialised by this set-up, in its order, in every process alike)
+        if std::env::var("PFV_GIANT_INLINE").is_err() {
+            if let Ok(exe) = std::env::current_exe() {
+                if let Ok(o) = std::process::Command::new(exe).arg("giant").env("PFV_GIANT_INLINE", "1").output() {
+                    let text = String::from_utf8_lossy(&o.stdout);
+                    let v: Vec<(Vec<u8>, usize)> = text
+                        .lines()
+                        .filter_map(|l| {
+                            let (a, b) = l.split_once(' ')?;
+                            Some((unhex(b), a.parse().ok()?))
+                        })
+                        .collect();
+                    if o.status.success() && v.len() == 12 {
+                        return v;
+                    }
+                }
+            }
+        }
         let mut v = Vec::new();
         for p in 0..6u8 {
             let base = Config::default_for(p, Entropy::Bytes(vec![]));
